@@ -902,4 +902,56 @@ def run(chk):
         c14.kind_table_agreement(chk, P, "C15.R6:Kind-table")
         from . import c17
         c17.level_parse_rule(chk, P, "C15.R6:level-parse")
+
+        def value_parse():
+            """`Value::parse` - the last resort of every `FromValue` cast (levels, kinds, ids, timestamps arriving as text) - hands the value to a visitor and
+            returns what the visitor extracted: the visitor's `visit_str` stores `value.parse().ok()`, its `visit_any` stores the parse of the value's
+            Display text, and `parse` returns the slot of the very visitor it passed to `visit`."""
+            b = P.body("emit_core::value::Value::<'v>::parse")
+            vs = [c for c in b.calls(normal_only=True) if c.callee.get("name") == "visit"]
+            if len(vs) != 1 or b.count_on_paths({vs[0].bb}) != (1, 1):
+                return False, "Value::parse must visit the captured value exactly once", [], b.span
+            vl = None
+            for bb, j, st in b.statements(normal_only=True):
+                if st["k"] == "assign" and st["rv"]["k"] == "ref" and "p" not in st["rv"]["place"]:
+                    a = vs[0].args[1]
+                    al = a.get("m", a.get("c", {})).get("l")
+                    if st["place"]["l"] == al or (al is not None and b.origin(a)[0] == "ref" and st["place"]["l"] == al):
+                        vl = st["rv"]["place"]["l"]
+            if vl is None:
+                # two-step reborrow: follow one copy
+                for bb, j, st in b.statements(normal_only=True):
+                    if st["k"] == "assign" and st["rv"]["k"] == "ref" and "p" not in st["rv"]["place"] and "Extract" in (b.local_ty(st["rv"]["place"]["l"]) or ""):
+                        vl = st["rv"]["place"]["l"]
+            rets = [st for bb, j, st in b.statements(normal_only=True) if st["k"] == "assign" and st["place"]["l"] == 0 and "p" not in st["place"]]
+            ok = vl is not None and rets and all(st["rv"]["k"] == "use" and st["rv"]["op"].get("m", st["rv"]["op"].get("c", {})).get("l") == vl
+                                                  and [p_.get("f") for p_ in st["rv"]["op"].get("m", st["rv"]["op"].get("c", {})).get("p", []) if isinstance(p_, dict)] == [0] for st in rets)
+            if not ok:
+                return False, "Value::parse does not return the slot of the visitor it handed to visit()", [], b.span
+            if not b.dominates(vs[0].bb, [bb for bb, j, st in b.statements(normal_only=True) if st in rets][0]):
+                return False, "Value::parse reads the visitor's slot before the visit", [], b.span
+            ev = [vs[0].loc]
+            for m, via in (("visit_str", None), ("visit_any", "to_string")):
+                ks = [k for k in P.bodies if "Value<'v>::parse::Extract<T> as value_bag::visit::Visit" in k and k.endswith("::" + m)]
+                if not ks:
+                    raise mir.AnchorMissing("Extract::%s" % m)
+                x = P.body(ks[0])
+                stores = [x.origin(st["rv"]["op"]) for bb, j, st in x.statements(normal_only=True) if st["k"] == "assign" and st["place"].get("p") and st["rv"]["k"] == "use"
+                          and [p_.get("f") for p_ in st["place"]["p"] if isinstance(p_, dict)] == [0]]
+                good = False
+                for o in stores:
+                    if o[0] == "call" and o[1].callee.get("name") == "ok":
+                        po = x.origin(o[1].args[0])
+                        if po[0] == "call" and po[1].callee.get("name") == "parse":
+                            src = x.origin(po[1].args[0], through_calls=("deref", "as_str", "as_ref", "borrow"))
+                            if via is None and mir.o_is_param(src, idx=2):
+                                good = True
+                            if via is not None and src[0] == "call" and src[1].callee.get("name") == via and mir.o_is_param(mir.o_root(x.origin(src[1].args[0])), idx=2):
+                                good = True
+                if not good or not x.must_pass({bb for bb, j, st in x.statements(normal_only=True) if st["k"] == "assign" and st["place"].get("p")}):
+                    return False, ("the visitor's %s does not store the parse of %s: values captured %s would never cast to a level, kind, id or timestamp"
+                                   % (m, "the string it is given" if via is None else "the value's Display text", "as strings" if via is None else "through Display / Debug / sval / serde")), [], x.span
+                ev.append(x.span)
+            return True, "", ev
+        chk.ob("C15.R6:Value::parse", "Value::parse returns what its visitor parsed from the string / the Display text of the value", value_parse)
     return chk
